@@ -362,17 +362,16 @@ func (a *aclList) Iterate(iterFunc IterFunc) {
 // members' read keys, and re-marshalling it would break the record signature. Storage is the source of
 // truth. Guarded by TestAclList_ServesFullRecordsFromStorage.
 func (a *aclList) RecordsAfter(ctx context.Context, id string) (records []*consensusproto.RawRecordWithId, err error) {
-	var recIdx int
-	if id == "" {
-		recIdx = 1
-	} else {
-		var ok bool
-		recIdx, ok = a.indexes[id]
+	// storage orders are 1-based (the root has order 1), list indexes are 0-based
+	order := 1
+	if id != "" {
+		recIdx, ok := a.indexes[id]
 		if !ok {
 			return nil, ErrNoSuchRecord
 		}
+		order = recIdx + 1
 	}
-	err = a.storage.GetAfterOrder(ctx, recIdx, func(ctx context.Context, record StorageRecord) (shouldContinue bool, err error) {
+	err = a.storage.GetAfterOrder(ctx, order, func(ctx context.Context, record StorageRecord) (shouldContinue bool, err error) {
 		raw := make([]byte, 0, len(record.RawRecord))
 		raw = append(raw, record.RawRecord...)
 		records = append(records, &consensusproto.RawRecordWithId{
